@@ -47,6 +47,7 @@ type In struct {
 	Arch    string            // amd64 | i386 | kfreebsd-amd64 (or a name the alphabet audit supplied)
 	Alias   map[string]string `json:",omitempty"` // alphabet audit: default name (src-a, bin-a1, otherpkg, zlib1g-dev) -> name used instead, in text AND model
 	Extra   []string          `json:",omitempty"` // alphabet audit: extra unknown fields "Name: value" written into every .dsc
+	Ver     []int             `json:",omitempty"` // per source: its own Version, index into srcVersions (0 = 1.0-1, the value every older artefact has)
 	Seq     []In              `json:",omitempty"` // call sequence: these models are ordered one after the other on one goroutine (the other fields are unused)
 	Perm    []int             // input slice order: position p holds source Perm[p]
 }
@@ -250,14 +251,37 @@ var decos = func() []deco {
 			}
 		}
 	}
+	// version constraints: all five operators × numbers below / equal to / above / in another epoch than the source
+	// versions in srcVersions — so that every (operator, satisfied / equal / not satisfied) case occurs against every
+	// provider version; also with an alternative behind it and as a later alternative
+	firstVersionDeco = len(d)
+	for _, op := range []string{">=", "<=", ">>", "<<", "="} {
+		for _, num := range []string{"0", "1.0-1", "4:12", "1.203", "1.204~"} {
+			rs := one(alt{Name: b, Ver: op + " " + num})
+			if n := name(rs); !seen[n] {
+				seen[n] = true
+				d = append(d, deco{n, rs})
+			}
+		}
+		for _, rs := range [][]rel{
+			one(alt{Name: b, Ver: op + " 4:12"}, alt{Name: t}),
+			one(alt{Name: o, Archs: []string{"arm64", "s390x"}}, alt{Name: b, Ver: op + " 1.203"}),
+		} {
+			if n := name(rs); !seen[n] {
+				seen[n] = true
+				d = append(d, deco{n, rs})
+			}
+		}
+	}
 	nStatic = len(d)
 	// alphabet audit: restriction lists built from architecture-like words a change introduced (none on the unchanged tree)
 	d = append(d, auditDecos(seen, name)...)
 	return d
 }()
 
-// nStatic: number of decorations that do not come from the alphabet audit (set while decos is built).
-var nStatic int
+// nStatic: number of decorations that do not come from the alphabet audit (set while decos is built);
+// firstVersionDeco..nStatic-1 are the version-constraint decorations.
+var nStatic, firstVersionDeco int
 
 func decoNames(n int) []string {
 	var x []string
@@ -338,8 +362,13 @@ func (in In) valid() bool {
 			return false
 		}
 	}
-	if len(in.Spread) != n || len(in.Pad) != n || len(in.PadKind) != n || len(in.Pos) != n {
+	if len(in.Spread) != n || len(in.Pad) != n || len(in.PadKind) != n || len(in.Pos) != n || len(in.Ver) != n {
 		return false
+	}
+	for _, v := range in.Ver {
+		if v < 0 || v >= len(srcVersions) {
+			return false
+		}
 	}
 	for i := 0; i < n; i++ {
 		if in.Spread[i] < 0 || in.Spread[i] >= len(spreads) || in.PadKind[i] < 0 || in.PadKind[i] >= len(padKinds) ||
@@ -435,8 +464,15 @@ func (in In) norm() In {
 			in.Pad = append(in.Pad, make([]int, 3))
 		}
 	}
+	if in.Ver == nil {
+		in.Ver = make([]int, n)
+	}
 	return in
 }
+
+// srcVersions: the Version field of a source. Version constraints of build-dependencies are about the BINARY
+// package and never remove an edge in the model, whatever the provider's source version is.
+var srcVersions = []string{"1.0-1", "", "2:0.5", "1.203"}
 
 // fieldRel is one relation of one field of one source, with the dependency it stands for (j<0: none).
 type fieldRel struct {
@@ -526,7 +562,9 @@ func (in In) dscText(i int) string {
 		}
 	}
 	b.WriteString("Architecture: any\n")
-	b.WriteString("Version: 1.0-1\n")
+	if v := srcVersions[in.Ver[i]]; v != "" {
+		b.WriteString("Version: " + v + "\n")
+	}
 	b.WriteString("Maintainer: A B <a@b.example>\n")
 	b.WriteString("Standards-Version: 4.6.2\n")
 	for q, x := range in.Extra {
@@ -691,7 +729,7 @@ type harnessProblem struct{ msg string }
 func (in In) rowKey(i int) string {
 	b := make([]byte, 0, 8+4*in.N)
 	b = append(b, byte(i), byte(in.Unknown[i]), byte(in.Fold[i]), byte(in.FoldBin[i]),
-		byte(in.Spread[i]), byte(in.PadKind[i]), byte(in.Pos[i]), byte(in.Pad[i][0]), byte(in.Pad[i][1]), byte(in.Pad[i][2]))
+		byte(in.Ver[i]), byte(in.Spread[i]), byte(in.PadKind[i]), byte(in.Pos[i]), byte(in.Pad[i][0]), byte(in.Pad[i][1]), byte(in.Pad[i][2]))
 	for j := 0; j < in.N; j++ {
 		b = append(b, byte(in.NB[j]), byte(in.Dep[i][j]), byte(in.Field[i][j]), byte(in.Deco[i][j]))
 	}
@@ -1102,7 +1140,7 @@ func enumGraphs(n int, diag bool) []graph {
 
 func blank(n int) In {
 	in := In{N: n, NB: make([]int, n), Unknown: make([]int, n), Fold: make([]int, n), FoldBin: make([]int, n), Arch: "amd64",
-		Spread: make([]int, n), PadKind: make([]int, n), Pos: make([]int, n)}
+		Spread: make([]int, n), PadKind: make([]int, n), Pos: make([]int, n), Ver: make([]int, n)}
 	for i := 0; i < n; i++ {
 		in.Pad = append(in.Pad, make([]int, 3))
 		in.Dep = append(in.Dep, make([]int, n))
@@ -1124,6 +1162,7 @@ func clone(b In) In {
 	in.Spread = append([]int(nil), b.Spread...)
 	in.PadKind = append([]int(nil), b.PadKind...)
 	in.Pos = append([]int(nil), b.Pos...)
+	in.Ver = append([]int(nil), b.Ver...)
 	in.Dep, in.Field, in.Deco, in.Pad = nil, nil, nil, nil
 	for i := 0; i < b.N; i++ {
 		in.Pad = append(in.Pad, append([]int(nil), b.Pad[i]...))
@@ -1205,6 +1244,9 @@ type scen struct {
 	layout    bool              // per-source field-layout Deviate points (spread over fields, 0..7 extra relations per field, their kind, position)
 	oneBinary bool              // only graphs in which every source has one binary
 	onlyLay   bool              // ONLY field and layout points deviate (decoration, unknown, folding stay default)
+	ver       bool              // per-source Deviate point: the source's own Version (4 values)
+	verAll    bool              // every base graph is combined with EVERY assignment of source versions (full product)
+	decoSet   []int             // if set: the decoration Deviate point ranges over these indices (decoSet[0] must be 0)
 	diag      bool              // the diagonal is enumerated too: sources may build-depend on their own binaries
 	alias     map[string]string // alphabet audit: names used instead of the default ones
 	extra     []string          // alphabet audit: extra fields written into every .dsc
@@ -1222,30 +1264,59 @@ func explore(r *mc.Run, sc scen) {
 		}
 		graphs = append(graphs, g)
 	}
+	// source versions: one assignment (all default) or the full product
+	vers := [][]int{make([]int, n)}
+	if sc.verAll {
+		vers = nil
+		cur := make([]int, n)
+		for {
+			vers = append(vers, append([]int(nil), cur...))
+			k := 0
+			for k < n {
+				cur[k]++
+				if cur[k] < len(srcVersions) {
+					break
+				}
+				cur[k] = 0
+				k++
+			}
+			if k == n {
+				break
+			}
+		}
+	}
+	nBases := len(graphs) * len(vers)
 	const chunk = 16
-	nsh := (len(graphs) + chunk - 1) / chunk
+	nsh := (nBases + chunk - 1) / chunk
 	points := fmt.Sprintf("per dependency: field (3), decoration (%d); per source: unknown dependency (none/first/last), build-dep fields folded, Binary folded", decoN)
 	if sc.onlyLay {
 		points = "per dependency: field (3)"
+	}
+	if sc.decoSet != nil {
+		points = fmt.Sprintf("per dependency: field (3), decoration (%d: plain + the version-constraint decorations); per source: unknown dependency, folding", len(sc.decoSet))
+	}
+	if sc.ver {
+		points += "; per source: its own Version (4)"
 	}
 	if sc.layout {
 		points += "; per source: spread of its dependencies over the three fields (5), extra relations in Build-Depends (0..7), in -Arch (0..2), in -Indep (0..2), kind of extra relations (2), position of the real relations (first/middle/last)"
 	}
 	bounds := map[string]interface{}{"sources": n, "binaries_per_source": "1|2", "base_graphs": len(graphs), "architectures": archSet,
 		"input_orders": "all permutations", "deviation_bound_k": k, "graphs_restricted_to_at_most_dependencies": sc.maxDeps,
-		"one_binary_per_source_only": sc.oneBinary, "self_dependencies_enumerated": sc.diag, "deviation_points": points, "decorations": decoNames(decoN)}
+		"one_binary_per_source_only": sc.oneBinary, "source_versions": srcVersions, "source_version_is_deviate_point": sc.ver, "all_source_version_assignments": sc.verAll, "self_dependencies_enumerated": sc.diag, "deviation_points": points, "decorations": decoNames(decoN)}
 	wit := &witnesses{}
 	r.Scenario(name, bounds, nsh, func(sh int, st *mc.Stats) bool {
 		defer func() { wit.shardDone(nsh, r.Expired(), st) }()
 		cache := parseCache{}
 		kept := map[string]int{} // artefacts are built for the first 3 executions per clause+features of a shard; all are counted in the classes
 		lo, hi := sh*chunk, sh*chunk+chunk
-		if hi > len(graphs) {
-			hi = len(graphs)
+		if hi > nBases {
+			hi = nBases
 		}
 		ok := true
 		for g := lo; g < hi && ok; g++ {
-			base := graphs[g].expand(n)
+			base := graphs[g/len(vers)].expand(n)
+			base.Ver = append([]int(nil), vers[g%len(vers)]...)
 			base.Alias, base.Extra = sc.alias, sc.extra
 			if len(cache) > 8192 {
 				cache = parseCache{} // bound the memory held by memoised parses
@@ -1268,10 +1339,15 @@ func explore(r *mc.Run, sc scen) {
 							if in.Dep[i][j] != 0 {
 								has = true
 								in.Field[i][j] = x.Deviate(3, "field")
-								if !sc.onlyLay {
+								if sc.decoSet != nil {
+									in.Deco[i][j] = sc.decoSet[x.Deviate(len(sc.decoSet), "decoration")]
+								} else if !sc.onlyLay {
 									in.Deco[i][j] = x.Deviate(decoN, "decoration")
 								}
 							}
+						}
+						if sc.ver {
+							in.Ver[i] = x.Deviate(len(srcVersions), "source-version")
 						}
 						if !sc.onlyLay {
 							in.Unknown[i] = x.Deviate(3, "unknown-dependency")
@@ -1355,8 +1431,16 @@ func Run(r *mc.Run) {
 	both, three := archs[:2], archs // the third build architecture (non-linux) only where the whole decoration alphabet is explored
 	nFull := len(decos)
 	p1, p2, p3 := permutations(1), permutations(2), permutations(3)
-	explore(r, scen{name: "graphs-n1-k2", n: 1, k: 2, perms: p1, archSet: three, maxDeps: -1, decoN: nFull, layout: true, diag: true})
-	explore(r, scen{name: "graphs-n2-k2", n: 2, k: 2, perms: p2, archSet: both, maxDeps: -1, decoN: nCore, layout: true})
+	explore(r, scen{name: "graphs-n1-k2", n: 1, k: 2, perms: p1, archSet: three, maxDeps: -1, decoN: nFull, layout: true, diag: true, ver: true})
+	explore(r, scen{name: "graphs-n2-k2", n: 2, k: 2, perms: p2, archSet: both, maxDeps: -1, decoN: nCore, layout: true, ver: true})
+	// version constraints against every provider source version: all two-source graphs (diagonal included) × all 16
+	// version assignments, one deviation among field / the 35 version decorations / unknown / folding
+	vset := []int{0}
+	for d := firstVersionDeco; d < nStatic; d++ {
+		vset = append(vset, d)
+	}
+	explore(r, scen{name: "versions-n2-k1", n: 2, k: 1, perms: p2, archSet: both[:1], maxDeps: -1, decoN: nBasic, diag: true, verAll: true, decoSet: vset})
+	explore(r, scen{name: "versions-n3-k1-upto2deps", n: 3, k: 1, perms: p3, archSet: both[:1], maxDeps: 2, decoN: nBasic, oneBinary: true, ver: true, decoSet: vset})
 	// self-dependencies: the whole n×n matrix
 	explore(r, scen{name: "selfdeps-n2-k1-alldecorations", n: 2, k: 1, perms: p2, archSet: three, maxDeps: -1, decoN: nFull, diag: true})
 	explore(r, scen{name: "selfdeps-n2-k2", n: 2, k: 2, perms: p2, archSet: both, maxDeps: -1, decoN: nBasic, diag: true})
@@ -1365,7 +1449,7 @@ func Run(r *mc.Run) {
 	if r.Quick() {
 		explore(r, scen{name: "graphs-n2-k1-alldecorations", n: 2, k: 1, perms: p2, archSet: three, maxDeps: -1, decoN: nFull})
 		explore(r, scen{name: "graphs-n3-k1", n: 3, k: 1, perms: p3, archSet: both, maxDeps: -1, decoN: nCore})
-		explore(r, scen{name: "graphs-n3-k1-upto2deps-alldecorations", n: 3, k: 1, perms: p3, archSet: three, maxDeps: 2, decoN: nFull, layout: true})
+		explore(r, scen{name: "graphs-n3-k1-upto2deps-alldecorations", n: 3, k: 1, perms: p3, archSet: both, maxDeps: 2, decoN: nFull, layout: true}) // (the third architecture runs with all decorations in the n=1 / n=2 scenarios)
 		explore(r, scen{name: "graphs-n3-k2-upto2deps", n: 3, k: 2, perms: p3, archSet: both, maxDeps: 2, decoN: nBasic})
 		// field load: how many relations each field holds and which fields are in use at once
 		explore(r, scen{name: "fieldload-n3-k2", n: 3, k: 2, perms: p3, archSet: both, maxDeps: -1, decoN: nBasic, layout: true, oneBinary: true, onlyLay: true})
